@@ -13,14 +13,15 @@ U(n) == O("u", n)
 G == O("g", 0)
 
 \* growers only (no clock): who wins / loses the table CAS, loser clean-up, retry with a larger table
+Cfg_grow2q == { Cfg(bs, 0, << <<E(i)>>, <<E(j)>> >>) : bs \in {1, 2}, i \in {0, 3}, j \in {1, 3} }
+         \cup { Cfg(2, 0, << <<E(0), E(3)>>, <<E(5), O("x", 0)>> >>), Cfg(1, 0, << <<O("r", 2)>>, <<O("f", 1), E(1)>> >>) }
+Cfg_wmq == { Cfg(1, 0, << <<E(1)>>, <<E(0), O("x", 0)>>, <<S, U(0)>> >>), Cfg(2, 0, << <<E(2)>>, <<E(3)>>, <<S, U(1)>> >>) }
 Cfg_grow2 == { Cfg(bs, 0, << <<E(i)>>, <<E(j)>> >>) : bs \in {1, 2}, i \in 0..3, j \in 0..3 }
        \cup { Cfg(bs, 0, << <<E(0), E(i)>>, <<E(j), O("x", 0)>> >>) : bs \in {1, 2}, i \in {1, 3}, j \in {2, 5} }
        \cup { Cfg(bs, 0, << <<O("r", 3)>>, <<O("f", 2), E(1)>> >>) : bs \in {1, 2} }
 Cfg_grow3 == { Cfg(bs, 0, << <<E(i)>>, <<E(j)>>, <<E(k)>> >>) : bs \in {1, 2}, i \in {0, 1}, j \in {1, 2}, k \in {2, 5} }
 \* clock families: growers + snapshot holder + gc caller.  t0 puts the start near the stamp wrap.
-Cfg_clock == { Cfg(1, t0, << <<E(0)>>, <<E(1)>>, <<S, U(0)>>, <<G>> >>) : t0 \in {0, 4 * TPU} }
-Cfg_clock2 == { Cfg(bs, t0, << <<E(0), E(2)>>, <<E(1)>>, <<S, U(0), G>> >>) : bs \in {1, 2}, t0 \in {0, 5 * TPU} }
-Cfg_clock3 == { Cfg(1, t0, << <<E(0)>>, <<E(1)>>, <<E(2)>>, <<S, G, U(0)>>, <<G>> >>) : t0 \in {0, (SMOD - 2) * TPU} }
+Cfg_clock == { Cfg(1, t0, << <<E(0)>>, <<E(1)>>, <<S, U(0)>>, <<G>> >>) : t0 \in {0, 2 * TPU} }
 \* smallest witness family of hypothesis H4: two growers, one gc caller
 Cfg_h4 == { Cfg(1, 0, << <<E(0)>>, <<E(1)>>, <<G>> >>) }
 \* weak memory (no clock): publication of the table and of the elements behind it
@@ -31,19 +32,22 @@ Cfg_wm == { Cfg(bs, 0, << <<E(1)>>, <<E(0), O("x", 0)>>, <<S, U(0)>> >>) : bs \i
 \* entering an operation (Call) touch nothing another thread can observe before the next atomic operation
 \* of the same thread, so they commute with every step of the other threads: it is enough to explore the
 \* interleavings in which such a step is taken as soon as it is enabled (lowest thread first).
+\* The same holds for the return of an operation that is handed an element or nothing (blocks are only given
+\* back by their creator before publication or by the destructor).
 LocalPc(t) == \/ pc[t] \in {"s_new", "s_blk", "s_del", "s_deltab"}
               \/ (pc[t] = "idle" /\ L[t].opi <= Len(cfg.prog[t]))
+              \/ (pc[t] = "ret" /\ Op(t).op \in {"e", "x", "r", "f", "g"})
 LocalThr == {t \in Thr : LocalPc(t)}
 Next == IF LocalThr # {}
         THEN Step(CHOOSE t \in LocalThr : \A u \in LocalThr : t <= u, MOf)
         ELSE \/ \E t \in Thr : Step(t, MOf)
              \/ Destroy(MOf)
-             \/ (now < MaxNow /\ TimeMatters /\ Tick(1))
+             \/ (now < cfg.t0 + MaxNow /\ TimeMatters /\ Tick(1))
              \/ (Dead /\ UNCHANGED vars)
 \* the same without the reduction (used to cross-check it on the smallest family)
 NextFull == \/ \E t \in Thr : Step(t, MOf)
             \/ Destroy(MOf)
-            \/ (now < MaxNow /\ Tick(1))
+            \/ (now < cfg.t0 + MaxNow /\ Tick(1))
             \/ (Dead /\ UNCHANGED vars)
 SpecFull == Init /\ [][NextFull]_vars
 Spec == Init /\ [][Next]_vars
